@@ -18,8 +18,8 @@ func (s *Spec) Emit() map[string]string {
 	files["types.go"] = s.emitTypes("")
 	files["providers.go"] = s.emitProviders("")
 	for _, e := range s.ExtPkgs {
-		files[e.Dir+"/types.go"] = s.emitTypes(e.Name)
-		files[e.Dir+"/providers.go"] = s.emitProviders(e.Name)
+		files[e.Dir+"/types.go"] = s.emitTypes(e.Dir)
+		files[e.Dir+"/providers.go"] = s.emitProviders(e.Dir)
 	}
 	for i, f := range s.Files {
 		files[f] = s.emitDecls(i)
@@ -60,7 +60,7 @@ func (s *Spec) header(pkgName string, body string, inMain bool) string {
 	}
 	if inMain {
 		for _, e := range s.ExtPkgs {
-			if regexp.MustCompile(`(^|[^A-Za-z0-9_])` + regexp.QuoteMeta(s.importName(e.Name)) + `\.`).MatchString(body) {
+			if regexp.MustCompile(`(^|[^A-Za-z0-9_])` + regexp.QuoteMeta(s.importName(e.Dir)) + `\.`).MatchString(body) {
 				b.WriteString(s.extImport(e))
 			}
 		}
@@ -108,7 +108,7 @@ func (s *Spec) emitTypes(pkg string) string {
 	body := b.String()
 	name := s.mainPkgName()
 	if pkg != "" {
-		name = pkg
+		name = s.extName(pkg)
 	}
 	return s.header(name, body, pkg == "") + body
 }
@@ -282,7 +282,7 @@ func (s *Spec) emitProviders(pkg string) string {
 	body := b.String()
 	name := s.mainPkgName()
 	if pkg != "" {
-		name = pkg
+		name = s.extName(pkg)
 	}
 	return s.header(name, body, pkg == "") + body
 }
@@ -408,3 +408,13 @@ func (s *Spec) emitReg() string {
 
 // Header renders a main-package file header importing what body uses.
 func (s *Spec) Header(body string) string { return s.header(s.mainPkgName(), body, true) }
+
+// extName returns the package name of the sibling package in directory dir.
+func (s *Spec) extName(dir string) string {
+	for _, e := range s.ExtPkgs {
+		if e.Dir == dir {
+			return e.Name
+		}
+	}
+	return dir
+}
